@@ -201,6 +201,10 @@ fn enum_tracks() -> Vec<MTrack> {
 }
 
 pub fn run(ctx: &mut Ctx) {
+    run_histories(ctx, oracle);
+}
+
+pub fn run_histories(ctx: &mut Ctx, oracle: fn(&mut Ctx, &MuxCase) -> Check) {
     ctx.stage("enum");
     let maxlen = ctx.pick(3usize, 4usize);
     // alphabet: track{1,2} x size{0,3} x dur{0,1,2} x cts{0,-1} x sync{f,t} = 48
@@ -232,7 +236,7 @@ pub fn run(ctx: &mut Ctx) {
                 ops.push(alphabet[(c % a) as usize].clone());
                 c /= a;
             }
-            let case = MuxCase { major: *b"isom", minor: 512, compat: vec![*b"isom"], timescale: 4, tracks: enum_tracks(), ops };
+            let case = MuxCase { major: *b"isom", minor: 512, compat: vec![*b"isom"], timescale: 3, tracks: enum_tracks(), ops };
             let res = oracle(ctx, &case);
             ctx.judge(&case, res);
         }
